@@ -675,6 +675,10 @@ class Interp(ExprMixin):
             cm = self.resolve_ctxmgr(s.items[0].context_expr, st, frame)
             if cm is not None:
                 return self.with_ctxmgr(cm, s, st, frame, out)
+            cfn = s.items[0].context_expr.func
+            if isinstance(cfn, ast.Name) and cfn.id in self.p.classes and self.p.method(cfn.id, "__enter__") is not None \
+                    and self.p.method(cfn.id, "__exit__") is not None:
+                return self.with_class_cm(cfn.id, s, st, frame, out)
         bound = []
         for item in s.items:
             val, st = self.eval(item.context_expr, st, frame, out)
@@ -777,6 +781,52 @@ class Interp(ExprMixin):
             # conservatively also continue normally unless BODY always returned
             pass
         return after
+
+    def with_class_cm(self, cls, s, st, frame, out):
+        """`with Guard(...) as g: BODY` for a class of the package that defines __enter__ / __exit__: the object is constructed,
+        __enter__ inlined, BODY executed, and __exit__ inlined on every way out of BODY (like a finally).  An __exit__ that can
+        return something truthy would swallow the exception in flight: that is reported as not analysable."""
+        call = s.items[0].context_expr
+        args, kw, st = self.eval_args(call, st, frame, out)
+        inst_v, st = self.construct(cls, args, kw, call, st, frame, out)
+        if st is None:
+            return None
+        entered, st = self.inline(self.p.method(cls, "__enter__"), [inst_v], {}, st, frame, call, out, selfterm=next(iter(inst_v)))
+        if st is None:
+            return None
+        if s.items[0].optional_vars is not None:
+            st = self.assign(s.items[0].optional_vars, entered, st, frame, out)
+        body = self.exec_block(s.body, st, frame)
+        exit_f = self.p.method(cls, "__exit__")
+
+        def leave(state, exc=False):
+            tmp = Out(None)
+            a3 = [V(("unknown", "exc_type"))] * 3 if exc else [V(NONE)] * 3
+            rv, st2 = self.inline(exit_f, [inst_v] + a3, {}, state, frame, call, tmp, selfterm=next(iter(inst_v)))
+            for l in tmp.raises:
+                for x in tmp.raise_states(l):
+                    out.add_raise(l, x)
+            if exc and st2 is not None and any(t not in (FALSE, NONE) for t in rv):
+                self.problem(f"{self.p.loc(frame.func, s)}: {cls}.__exit__ may return a true value (it would swallow the exception in flight): not modelled")
+            return st2
+
+        res = None
+        if body.normal is not None:
+            res = leave(body.normal)
+        for pst, pval in body.ret_parts():
+            st2 = leave(pst)
+            if st2 is not None:
+                out.add_return(st2, pval)
+        for l in body.raises:
+            for x in body.raise_states(l):
+                st2 = leave(x.set(handling=x.handling + (l,)), exc=True)
+                if st2 is not None:
+                    out.add_raise(l, st2.set(handling=x.handling))
+        if body.brk is not None:
+            out.brk = join(out.brk, leave(body.brk))
+        if body.cont is not None:
+            out.cont = join(out.cont, leave(body.cont))
+        return res
 
     def with_exit(self, val, ent, item, st, frame, out, node):
         for t in val:
